@@ -485,6 +485,65 @@ class VReplaySrc(DataSource):
         return FloatDataType
 
 
+# Components WITHOUT a docstring of their own (perfectly legal; most quick user components look like this)
+class VNoDocSrc(DataSource):
+    @classmethod
+    def _get_data(cls, value: float = 3.0) -> FloatDataType:
+        REC.add("VNoDocSrc", None, {"value": value})
+        return FloatDataType(float(value))
+
+    @classmethod
+    def output_data_type(cls):
+        return FloatDataType
+
+
+class VNoDocSink(DataSink):
+    @classmethod
+    def _send_data(cls, data: FloatDataType, tag: str = "t"):
+        REC.add("VNoDocSink", data, {"tag": tag})
+
+    @classmethod
+    def input_data_type(cls):
+        return FloatDataType
+
+
+class VNoDocProbe(DataProbe):
+    @classmethod
+    def input_data_type(cls):
+        return FloatDataType
+
+    def _process_logic(self, data, scale: float = 1.0):
+        REC.add("VNoDocProbe", data, {"scale": scale})
+        return data.data * scale
+
+
+class VNoDocOp(DataOperation):
+    @classmethod
+    def input_data_type(cls):
+        return FloatDataType
+
+    @classmethod
+    def output_data_type(cls):
+        return FloatDataType
+
+    def _process_logic(self, data, factor: float = 2.0):
+        REC.add("VNoDocOp", data, {"factor": factor})
+        return FloatDataType(data.data * factor)
+
+
+class VNoDocPayloadSink(PayloadSink):
+    @classmethod
+    def _send_payload(cls, payload: Payload):
+        REC.add("VNoDocPayloadSink", payload.data, {})
+
+    @classmethod
+    def input_data_type(cls):
+        return FloatDataType
+
+
+assert all(c.__doc__ is None for c in (VNoDocSrc, VNoDocSink, VNoDocProbe, VNoDocOp, VNoDocPayloadSink))
+
+
 # --------------------------------------------------------------------------- fault components
 class VBadWriter(_VFloatOp):
     """Fault component: operation that writes an undeclared context key."""
